@@ -73,6 +73,20 @@ def targets():
         ts.append(mk(f'Q_{m}_m', RR, lambda A, v, m=m: A.Quaternion(dcm=_Rm(v), method=m), f"Quaternion(dcm=R, method='{m}')"))
         ts.append(mk(f'QA_{m}_m', RR, lambda A, v, m=m: A.QuaternionArray(DCM=symnp.array([_Rm(v)]), method=m)[0],
                      f"QuaternionArray(DCM=[R], method='{m}')[0]"))
+    # mixed stacks: one generic symbolic row next to FIXED exact half-turn / identity rows, in different positions;
+    # the result of the generic row must not depend on its neighbours (theorems *_mixed_* in C02_hughes/C02_chiaverini)
+    HALF = [[1.0, 0.0, 0.0], [0.0, -1.0, 0.0], [0.0, 0.0, -1.0]]
+    EYE = [[1.0, 0.0, 0.0], [0.0, 1.0, 0.0], [0.0, 0.0, 1.0]]
+    CYC = [[0.0, 0.0, 1.0], [1.0, 0.0, 0.0], [0.0, 1.0, 0.0]]
+
+    def stack(v, order):
+        rows = {'g': _Rq(v), 'h': symnp.array(HALF), 'i': symnp.array(EYE), 'c': symnp.array(CYC)}
+        return symnp.array([rows[c] for c in order])
+    # (Chiaverini's batch branch turns an exact half-turn row into 0/0 = NaN, which the tracer reports as an exception of
+    #  the whole call; its fixed neighbour is therefore the 120-degree cyclic permutation instead of the half-turn)
+    for m, a, b in (('chiaverini', 'gc', 'cig'), ('hughes', 'gh', 'hig')):
+        ts.append(mk(f'{m}_mixed_gh_q', Q, lambda A, v, m=m, a=a: getattr(O(A), m)(stack(v, a))[0], f'{m}([Rspec q, fixed row])[0]'))
+        ts.append(mk(f'{m}_mixed_hig_q', Q, lambda A, v, m=m, b=b: getattr(O(A), m)(stack(v, b))[2], f'{m}([fixed row, identity, Rspec q])[2]'))
     E = RR + ['eta']
     ts.append(mk('DCM_sarabandi_thr_m', E, lambda A, v: A.DCM(_Rm(v)).to_quaternion(method='sarabandi', threshold=v.eta),
                  "DCM(R).to_quaternion('sarabandi', threshold=eta)"))
@@ -204,6 +218,12 @@ def correspondence(ctx):
     for m in ('shepperd', 'chiaverini', 'hughes'):
         f = _free(m, {})
         ctx.correspond(f'C02_{m}_q', qcases, (lambda c, f=f: f(cm.Rspec([c[k] for k in Q]))), tol_ulp=4096, abs_tol=1e-12)
+    HALF, EYE = np.diag([1.0, -1.0, -1.0]), np.eye(3)
+    CYC = np.array([[0.0, 0.0, 1.0], [1.0, 0.0, 0.0], [0.0, 1.0, 0.0]])
+    for m, F in (('chiaverini', CYC), ('hughes', HALF)):
+        f = _free(m, {})
+        ctx.correspond(f'C02_{m}_mixed_gh_q', qcases, (lambda c, f=f, F=F: f(np.array([cm.Rspec([c[k] for k in Q]), F]))[0]), tol_ulp=4096, abs_tol=1e-12)
+        ctx.correspond(f'C02_{m}_mixed_hig_q', qcases, (lambda c, f=f, F=F: f(np.array([F, EYE, cm.Rspec([c[k] for k in Q])]))[2]), tol_ulp=4096, abs_tol=1e-12)
     scases = [{**c, 'eta': float(e)} for c, e in zip(qcases, np.resize(SARA_THRESHOLDS + (1e-3, -3.5), len(qcases)))]
     from ahrs.common import orientation as O
     ctx.correspond('C02_sarabandi_q', scases, lambda c: O.sarabandi(cm.Rspec([c[k] for k in Q]), eta=c['eta']), tol_ulp=4096, abs_tol=1e-12)
@@ -293,7 +313,20 @@ def _cls(region):
     return region
 
 
-def _check_q(o, q, R, where, region, single=False):
+def _loose(method, kw, q=None):
+    """matrix tolerance of one method on one rotation.  1e-9, except where the unmodified algorithm is inherently less
+    accurate in binary64 (measured on the unmodified code, explored only):
+    - Chiaverini (always) and Sarabandi with a negative threshold compute a small component v as sqrt(4 v^2 + rounding)/2:
+      error about eps/(8|v|), at most ~1e-8 around |v| ~ 1e-8 (angles 1e-9..1e-7)  -> 1e-7;
+    - the closed-form trio computes the scalar part as sqrt(1 + trace)/2 = sqrt(4 w^2 + rounding)/2: error about
+      eps/(2|w|), i.e. up to ~1e-9 at the edge of the domain |w| = 5e-7  -> + 4e-15/|w|."""
+    tol = 1e-7 if (method == 'chiaverini' or (method == 'sarabandi' and kw.get('threshold', 0.0) < 0)) else INV_TOL
+    if method in CLOSED and q is not None:
+        tol += 4e-15 / max(abs(float(q[0])), 5e-7)
+    return tol
+
+
+def _check_q(o, q, R, where, region, single=False, loose=None):
     region = _cls(region)
     o = np.asarray(o)
     if np.iscomplexobj(o):
@@ -301,7 +334,7 @@ def _check_q(o, q, R, where, region, single=False):
     if o.shape != (4,) or cm.bad(o):
         return {'tag': f'{where}/{region}-shape-or-nonfinite', 'observed': o, 'expected': 'finite (4,)'}
     # a float32 operand is processed in binary32 by NumPy: then the tolerances are those of binary32
-    unit_tol, inv_tol = (4e-7, 2e-6) if (single or o.dtype == np.float32) else (UNIT_TOL, INV_TOL)
+    unit_tol, inv_tol = (4e-7, 2e-6) if (single or o.dtype == np.float32) else (UNIT_TOL, loose or INV_TOL)
     o = o.astype(float)
     if abs(np.linalg.norm(o) - 1.0) > unit_tol:
         return {'tag': f'{where}/{region}-not-unit', 'observed': float(np.linalg.norm(o)), 'expected': 1.0}
@@ -324,7 +357,7 @@ def o_invert(inp):
     A = _as_form(R, form)
     keep = np.array(A, dtype=float).copy()
     o = f(A)
-    r = _check_q(o, q, np.array(keep), where, region, single=(form == 'float32'))
+    r = _check_q(o, q, np.array(keep), where, region, single=(form == 'float32'), loose=_loose(method, kw, q))
     if r is not None:
         return r
     if inp.get('twice'):
@@ -356,9 +389,60 @@ def o_batch(inp):
     for i, (q, o) in enumerate(zip(qs, out)):
         if method in CLOSED and not _in_trio_domain(q):
             continue
-        r = _check_q(o, q, Rs[i], where, inp.get('region', 'mixed') + '-row', single=(inp.get('form') == 'float32'))
+        r = _check_q(o, q, Rs[i], where, inp.get('region', 'mixed') + '-row', single=(inp.get('form') == 'float32'), loose=_loose(method, kw, q))
         if r is not None:
             r['note'] = f'row {i}'
+            return r
+    return None
+
+
+def _run_stack(entry, method, kw, A):
+    import ahrs
+    from ahrs.common import orientation as O
+    if entry == 'QuaternionArray(DCM=)':
+        return np.asarray(ahrs.QuaternionArray(DCM=A, method=method, **kw))
+    if entry == 'QuaternionArray.from_DCM':
+        QA = ahrs.QuaternionArray(np.tile([1.0, 0, 0, 0], (2, 1)))
+        return np.asarray(QA.from_DCM(A, method=method, inplace=False, **kw))
+    return np.asarray(getattr(O, method)(A))
+
+
+def o_mixed(inp):
+    """a stack mixing region kinds (generic, exact half-turn, identity, near-identity, near-half-turn rows in any positions):
+    every row of the result equals what the same entry point returns for that matrix ALONE (rows must not influence
+    each other), and every row in the method's domain inverts its matrix"""
+    from vlib.core import call_outcome
+    qs = [np.array(q, float) for q in inp['qs']]
+    kinds = list(inp['kinds'])
+    method, kw, entry = inp['method'], dict(inp.get('kw', {})), inp['entry']
+    where = f"{entry}:{method}{_opt(kw)}[mixed]"
+    Rs = [np.rint(cm.Rspec(q)) if k.startswith('perm') else cm.Rspec(q) for q, k in zip(qs, kinds)]
+    alone, keep = [], []
+    for i, R in enumerate(Rs):
+        r = call_outcome(lambda R=R: _run_stack(entry, method, kw, np.array([R])))
+        ok = r[0] == 'val' and not np.iscomplexobj(r[1]) and np.asarray(r[1]).shape == (1, 4) and not cm.bad(r[1])
+        if not ok:
+            if method in CLOSED and not _in_trio_domain(qs[i]):
+                continue            # outside the method's domain and not even finite alone: leave it out of the stack
+            return {'tag': f'{where}/{_cls(kinds[i])}-alone-raises-or-nonfinite', 'observed': repr(r)[:200]}
+        alone.append(np.asarray(r[1], float)[0]); keep.append(i)
+    if len(keep) < 2:
+        return None
+    out = _run_stack(entry, method, kw, np.array([Rs[i] for i in keep]))
+    if np.iscomplexobj(out) or out.shape != (len(keep), 4):
+        return {'tag': f'{where}/shape-or-dtype', 'observed': repr(out)[:300], 'expected': f'real ({len(keep)}, 4)'}
+    out = out.astype(float)
+    present = '+'.join(sorted({_cls(kinds[i]) for i in keep}))
+    for row, i in enumerate(keep):
+        a, b = out[row], alone[row]
+        if not np.array_equal(np.isnan(a), np.isnan(b)) or cm.maxabs(np.nan_to_num(a), np.nan_to_num(b)) > 1e-15:
+            return {'tag': f'{where}/{_cls(kinds[i])}-row-differs-from-alone', 'observed': a, 'expected': b,
+                    'note': f'row {row} of a stack of kinds {present}'}
+        if method in CLOSED and not _in_trio_domain(qs[i]):
+            continue
+        r = _check_q(a, qs[i], Rs[i], where, kinds[i] + '-row', loose=_loose(method, kw, qs[i]))
+        if r is not None:
+            r['note'] = f'row {row} of a stack of kinds {present}'
             return r
     return None
 
@@ -379,12 +463,12 @@ def o_agree(inp):
         if ref is None:
             ref = (method, o)
             continue
-        if min(cm.maxabs(o, ref[1]), cm.maxabs(o, -ref[1])) > INV_TOL:
+        if min(cm.maxabs(o, ref[1]), cm.maxabs(o, -ref[1])) > _loose(method, kw, q):
             return {'tag': f"{entry}:{method}{_opt(kw)}/{region}-disagrees-with-{ref[0]}", 'observed': o, 'expected': ref[1]}
     return None
 
 
-ORACLES = {'invert': o_invert, 'batch': o_batch, 'agree': o_agree}
+ORACLES = {'invert': o_invert, 'batch': o_batch, 'agree': o_agree, 'mixed': o_mixed}
 
 
 def cm_call(f, inp):
@@ -485,5 +569,34 @@ def search(ctx, scale):
                     continue
                 inp = {'qs': [r.tolist() for r in use], 'method': method, 'kw': kw, 'entry': 'QuaternionArray(DCM=)', 'region': f'perm-N{len(use)}', 'form': 'int'}
                 ctx.check('batch', inp, cm_call(o_batch, inp), nontrivial_key=('int', method, kw.get('version'), N))
+    # 4. MIXED stacks: every ordered pair of region kinds (N = 2), then N in {3,4,5,7} with the kinds in varying positions
+    import itertools
+    ax = lambda: ctx.rng.standard_normal(3)
+    kind_gen = {
+        'generic': lambda: cm.rand_unit_quat(ctx.rng),
+        'half-turn': lambda: cm.axang_q(ax(), math.pi),
+        'perm-half-turn': lambda: np.array([[0, 1.0, 0, 0], [0, 0, 1.0, 0], [0, 0, 0, 1.0]][int(ctx.rng.integers(3))]),
+        'identity': lambda: np.array([1.0, 0, 0, 0]),
+        'near-identity': lambda: cm.axang_q(ax(), 10.0 ** ctx.rng.uniform(-12, -3)),
+        'near-half-turn': lambda: cm.axang_q(ax(), math.pi - 10.0 ** ctx.rng.uniform(-13, -9)),
+        'near-half-turn-1e-6': lambda: cm.axang_q(ax(), math.pi - 1.0000001e-6),
+        'neg-angle': lambda: cm.axang_q(ax(), -ctx.rng.uniform(0.1, 3.0)),
+    }
+    names = list(kind_gen)
+    stacks = [list(p) for p in itertools.product(names, repeat=2)]
+    for N in (3, 4, 5, 7):
+        for k in range(6 * scale):
+            ks = ['generic', names[1 + (k + N) % (len(names) - 1)]] + [names[int(t)] for t in ctx.rng.integers(len(names), size=N - 2)]
+            stacks.append([ks[int(t)] for t in ctx.rng.permutation(N)])
+    mixed_choices = CHOICES + OPT_CHOICES[4:6]
+    for si, ks in enumerate(stacks):
+        rows = [kind_gen[k]() for k in ks]
+        for ci, (method, kw) in enumerate(mixed_choices):
+            ents = ['QuaternionArray(DCM=)', 'QuaternionArray.from_DCM'] + (['batch-function'] if method in ('chiaverini', 'hughes') else [])
+            if scale == 1 and method not in ('chiaverini', 'hughes'):
+                ents = [ents[(si + ci) % 2]]
+            for entry in ents:
+                inp = {'qs': [r.tolist() for r in rows], 'kinds': ks, 'method': method, 'kw': kw, 'entry': entry}
+                ctx.check('mixed', inp, cm_call(o_mixed, inp), nontrivial_key=(entry, method, _opt(kw), tuple(ks), si))
     ctx.samples.append({'kind': 'search', 'oracle': 'invert',
                         'input': {'q': qs[9][1].tolist(), 'method': 'hughes', 'kw': {}, 'entry': 'DCM.to_quaternion', 'region': qs[9][0]}})
